@@ -429,8 +429,72 @@ var builtinVerbs = []string{"PING", "001", "433", "CAP", "410", "AUTHENTICATE", 
 
 var oddParams = []string{"", "x", "#c", "me", ":", ": ", ":x", " ", "\x01", "\x01VERSION\x01", "\x01PING\x01", "\x01ACTION\x01", "\x01\x01", "\x01 \x01", "LS", "ACK", "NAK", "*", "+", "-", "+o", "+k", "-l", "+b mask", "@", "!", "a!b@c", "a@b!c", "="}
 
+// oddTokens are the words of space-separated lists (capabilities, NAMES
+// entries, mode arguments): every prefix/modifier character alone, doubled and
+// in front of a name.
+var oddTokens = []string{"-", "~", "=", "+", "@", "%", "&", "!", "-~", "=-", "--", "@+", "+@", "a", "-a", "~a", "=a", "a=", "a=b", "a=b,c", "@a", "+a", "@+a",
+	"sasl", "-sasl", "sasl=PLAIN", "multi-prefix", "me", "@me", "bob", "*", ":", "#c", "a!b@c"}
+
+func oddList(g G, max int) string {
+	var ws []string
+	for k := g.Range(0, max); k > 0; k-- {
+		ws = append(ws, oddTokens[g.Intn(len(oddTokens))])
+	}
+	return strings.Join(ws, strings.Repeat(" ", g.W(0, 8, 1, 1)))
+}
+
+// genNearValid is a line a built-in handler accepts as far as its shape goes
+// (right verb, right sub-command, right number of parameters), with odd words
+// where the handler goes on to take things apart.
+func genNearValid(g G, me string) string {
+	who := []string{me, "*", "bob", ""}[g.W(5, 3, 1, 1)]
+	ch := []string{"#c", "#d", "&x", "#", me}[g.W(6, 2, 1, 1, 1)]
+	nk := []string{"bob", me, "al", "@bob", ""}[g.W(5, 2, 2, 1, 1)]
+	modes := func() string {
+		var b strings.Builder
+		for k := g.Range(1, 6); k > 0; k-- {
+			b.WriteByte("+-+-ovhqaklbeIimnpstrz?"[g.Intn(23)])
+		}
+		return b.String()
+	}
+	switch g.Intn(16) {
+	case 0, 1, 2:
+		sub := []string{"LS", "ACK", "NAK", "LIST", "NEW", "DEL", "ls", ""}[g.W(4, 4, 2, 1, 1, 1, 1, 1)]
+		cont := []string{"", "* "}[g.W(4, 1)]
+		return ":irc.sim CAP " + who + " " + sub + " " + cont + ":" + oddList(g, 5)
+	case 3:
+		return "AUTHENTICATE " + []string{"+", "", ":", "x", "+ +", strings.Repeat("A", 400)}[g.Intn(6)]
+	case 4:
+		return ":irc.sim " + []string{"903", "904", "908", "410"}[g.Intn(4)] + " " + who + " " + oddList(g, 3)
+	case 5:
+		return ":irc.sim 001 " + nk + " :" + oddList(g, 4)
+	case 6:
+		return ":irc.sim 433 " + who + " " + nk + " :" + oddList(g, 2)
+	case 7:
+		return ":irc.sim 353 " + who + " " + []string{"=", "*", "@", ""}[g.Intn(4)] + " " + ch + " :" + oddList(g, 6)
+	case 8:
+		return ":irc.sim 352 " + who + " " + ch + " " + oddList(g, 2) + " irc.sim " + nk + " " + []string{"H", "G", "H*", "H@", "*", ""}[g.Intn(6)] + " :" + oddList(g, 3)
+	case 9:
+		return ":irc.sim 324 " + who + " " + ch + " " + modes() + " " + oddList(g, 3)
+	case 10:
+		return ":" + nk + "!u@h MODE " + []string{ch, me, nk}[g.W(4, 1, 1)] + " " + modes() + " " + oddList(g, 4)
+	case 11:
+		return ":irc.sim " + []string{"332", "311", "671"}[g.Intn(3)] + " " + who + " " + []string{ch, nk}[g.Intn(2)] + " " + oddList(g, 3) + " :" + oddList(g, 2)
+	case 12:
+		return ":" + nk + "!u@h " + []string{"JOIN", "PART", "QUIT", "NICK", "TOPIC"}[g.Intn(5)] + " " + []string{ch, ":" + ch, nk, ":" + nk, ""}[g.Intn(5)] + " " + oddList(g, 2)
+	case 13:
+		return ":" + nk + "!u@h KICK " + ch + " " + []string{me, "bob", nk, ""}[g.Intn(4)] + " :" + oddList(g, 2)
+	case 14:
+		return ":" + nk + "!u@h " + []string{"PRIVMSG", "NOTICE"}[g.Intn(2)] + " " + []string{me, ch}[g.Intn(2)] + " :\x01" + []string{"VERSION", "PING", "USERINFO", "ACTION", "", " "}[g.Intn(6)] + []string{"", " ", " x", "\x01", " x\x01"}[g.Intn(5)]
+	default:
+		return "PING " + []string{"", ":", ": ", ":a b", "a b", ":" + strings.Repeat("t", 600)}[g.Intn(6)]
+	}
+}
+
 func genProbe(g G, me string) string {
-	switch g.W(4, 4, 3, 2, 2) {
+	switch g.W(4, 4, 3, 2, 2, 5) {
+	case 5:
+		return genNearValid(g, me)
 	case 0:
 		return shortString(g.Intn(shortCount))
 	case 1: // a built-in handler's verb with too few / empty / odd parameters
@@ -497,8 +561,15 @@ func recvAdversary(e *Env) {
 	var probes []string
 	// thorough tier: the run index sweeps the bounded-exhaustive family too
 	for i := 0; i < n; i++ {
-		probes = append(probes, genProbe(g, "me"))
+		p := genProbe(g, "me")
+		probes = append(probes, p)
+		// the same hostile line again, at once or later: the first one may have
+		// left something behind (a lock, a half-updated table)
+		if len(probes) > 1 && g.Pct(25) {
+			probes = append(probes, probes[g.Intn(len(probes))])
+		}
 	}
+	n = len(probes)
 	if e.Tier == "thorough" {
 		// the bounded-exhaustive family is swept by run index: 40 consecutive
 		// members per run, so 278 runs cover all 11 111 strings
